@@ -352,6 +352,35 @@ def probe_pushpop(cc, sdir):
     return PUSHPOP[0]
 
 
+def l2_huge(seed):
+    """the macro table at a size nothing else reaches: 5000 to 30000 names (some of them kilobytes long) defined, half of them
+    undefined, a quarter redefined, with samples probed after each phase"""
+    r = Rng(seed)
+    n = r.pick([5000, 12000, 30000])
+    longs = r.pick([0, 0, 300, 4000])
+    names = ["hm%d_%d" % (seed % 1000, i) for i in range(n)]
+    if longs:
+        for i in range(0, n, n // 7):
+            names[i] = names[i] + "y" * longs
+    ops = []
+    for i, nm in enumerate(names):
+        ops.append(["src", "def", nm, str(i + 1), 0])
+    def sample(k):
+        for _ in range(k):
+            nm = names[r.below(n)]
+            ops.append(["src", r.pick(["probe_ifdef", "probe_expand", "probe_ifvalue"]), nm, "", r.below(1000)])
+    sample(60)
+    for i in range(0, n, 2):
+        ops.append(["src", "undef", names[i], "", 0])
+    sample(60)
+    for i in range(0, n, 4):
+        ops.append(["src", "def", names[i], str(900000 + i), 0])
+    for i in range(1, n, 6):
+        ops.append(["src", "fdef", names[i], str(800000 + i), r.below(4)])
+    sample(120)
+    return {"names": names, "ops": ops}
+
+
 def l2_render(plan):
     """-> (argv_extra, source_text, expected_lines)   model: a python dict, last write wins"""
     model = dict((k, ("obj", v)) for k, v in PREDEF_BODY.items())
@@ -601,7 +630,7 @@ def l2_worker(cc, sdir, wid, master, start, step, total, families, big_every, de
     while i < total and time.monotonic() < deadline:
         seed = mix(master ^ 0x1E7E12, i)
         big = big_every and (i % big_every == big_every - 1)
-        plan = l2_gen(seed, families, big)
+        plan = l2_huge(seed) if i % 397 == 211 else l2_gen(seed, families, big)
         cls, detail = l2_exec(pick_cc(cc, i), sdir, wid, plan)
         res["runs"] += 1
         res["ops"] += len(plan["ops"])
@@ -1016,6 +1045,75 @@ def l3_gen(seed, families):
     return "\n".join(lines) + "\n", probes, big
 
 
+def l3_scale(seed):
+    """the scope tables far beyond what the ordinary programs reach: hundreds to thousands of nested scopes each re-declaring the
+    same few names, or one scope with thousands to tens of thousands of names (many rehashes while inner scopes come and go),
+    or identifiers of kilobytes. The model is trivial; the sizes are the point."""
+    r = Rng(seed)
+    k = r.below(3)
+    L = ["long line;"]
+    probes = 0
+    if k == 0:
+        depth = r.pick([64, 300, 1000, 2500])
+        L.append("int main(void) {")
+        L.append("  int x = 0; typedef char T[1]; struct S { char a[1]; };")
+        what = []
+        for d in range(1, depth + 1):
+            w = r.below(4)
+            what.append(w)
+            v = d % 100 + 1
+            L.append("  {" + [" int x = %d;" % v, " typedef char T[%d];" % v, " struct S { char a[%d]; };" % v, " enum { x = %d };" % v][w])
+        # on the way out every level sees what it (or the nearest enclosing level of that kind) declared
+        cur = {0: 0, 1: 1, 2: 1}
+        vals = []
+        st = {"x": [0], "T": [1], "S": [1]}
+        for d, w in enumerate(what, 1):
+            v = d % 100 + 1
+            st[{0: "x", 1: "T", 2: "S", 3: "x"}[w]].append(v)
+            vals.append((w, v))
+        for d in range(depth, 0, -1):
+            if d % max(1, depth // 40) == 0 or d == depth:
+                L.append("  line = line ? line : ((x != %d || sizeof(T) != %d || sizeof(struct S) != %d) ? __LINE__ : 0);" % (st["x"][-1], st["T"][-1], st["S"][-1]))
+                probes += 3
+            w, v = vals[d - 1]
+            st[{0: "x", 1: "T", 2: "S", 3: "x"}[w]].pop()
+            L.append("  }")
+        L.append("  line = line ? line : ((x != 0 || sizeof(T) != 1 || sizeof(struct S) != 1) ? __LINE__ : 0);")
+        L.append("  return line ? (line % 250) + 1 : 0;")
+        L.append("}")
+    elif k == 1:
+        n = r.pick([3000, 12000, 40000])
+        L.append("int main(void) {")
+        for i in range(n):
+            L.append("  int v%d = %d;" % (i, i % 1000))
+        pick = [r.below(n) for _ in range(60)]
+        L.append("  {")
+        sh = pick[:20]
+        for i in sh:
+            L.append("    int v%d = %d;" % (i, i % 1000 + 7)) if ("    int v%d = %d;" % (i, i % 1000 + 7)) not in L else None
+        for i in pick:
+            L.append("    line = line ? line : (v%d != %d ? __LINE__ : 0);" % (i, i % 1000 + (7 if i in sh else 0)))
+        L.append("  }")
+        for i in pick:
+            L.append("  line = line ? line : (v%d != %d ? __LINE__ : 0);" % (i, i % 1000))
+        probes += 120
+        L.append("  return line ? (line % 250) + 1 : 0;")
+        L.append("}")
+    else:
+        ln = r.pick([300, 5000, 70000])
+        names = ["q%s%d" % ("z" * ln, i) for i in range(6)] + ["q%s" % ("z" * (ln + 1)), "q%s" % ("z" * (ln - 1))]
+        for i, nm in enumerate(names):
+            L.append("int %s = %d;" % (nm, i + 1))
+        L.append("int main(void) {")
+        L.append("  int %s = 50;" % names[2])
+        for i, nm in enumerate(names):
+            L.append("  line = line ? line : (%s != %d ? __LINE__ : 0);" % (nm, 50 if i == 2 else i + 1))
+        probes += len(names)
+        L.append("  return line ? (line % 250) + 1 : 0;")
+        L.append("}")
+    return "\n".join(L) + "\n", probes, True
+
+
 def l3_l4_worker(cc, sdir, wid, master, start, step, families, deadline):
     res = {"l3_runs": 0, "l3_probes": 0, "l3_big": 0, "l4_runs": 0, "l4_headers": 0, "viol": [], "samples": [], "hashes": set()}
     i = start
@@ -1120,7 +1218,7 @@ def l3_l4_worker(cc, sdir, wid, master, start, step, families, deadline):
             for h in hdrs:
                 os.unlink(os.path.join(wd, h))
             continue
-        src, probes, big = l3_gen(seed, families)
+        src, probes, big = l3_scale(seed) if (i // step) % 23 == 7 else l3_gen(seed, families)
         cfile = os.path.join(wd, "p.c")
         with open(cfile, "w") as f:
             f.write(src)
